@@ -30,7 +30,9 @@ def plan(prop, tier, seed, t0):
     T = dict(module="Trace_Gen.tla", cfg="Trace_Gen.cfg", shards=W, timeout=3000 if q else 9000)
     th = [] if q else ["--thorough"]
     traces = [
-        dict(name="circuits", engine="gen", args=["--gens", "random_circuit,pauli_gadget,surface_code", "--seeds", 4 if q else 40] + th, **T),
+        # --api: RandomPauliGadgetCircuitBuilder::weight, every builder without .seed() / straight from Default (audit #22)
+        dict(name="circuits", engine="gen", args=["--gens", "random_circuit,pauli_gadget,surface_code", "--seeds", 4 if q else 40,
+                                                   "--api", 2 if q else 12] + th, **T),
         dict(name="hidden_shift", engine="gen", args=["--gens", "hidden_shift", "--seeds", 12 if q else 100] + th, **T),
         dict(name="stab_state", engine="gen", args=["--gens", "stab_state", "--seeds", 12 if q else 100] + th, **T),
     ]
@@ -50,7 +52,11 @@ def plan(prop, tier, seed, t0):
                     "seeds, every build repeated with identical seed/parameters; non-trivial = builds that returned at least one gate / edge; "
                     "each returned object is decided in TLC by the generator's contract predicate (hidden shift: exact amplitude via "
                     "Gen!CircApplyZero, for a sample also via the full CircSem; stabiliser states: exact norm via Den), AgainEqual, "
-                    "Deterministic (TLC compares the payloads of two build events with equal key) and NoPanic on admissible parameters",
+                    "Deterministic (TLC compares the payloads of two build events with equal key) and NoPanic on admissible parameters; "
+                    "--api: weight(w) builds are logged under the key of the min_weight(w).max_weight(w) build of the same seed (so "
+                    "Deterministic compares them and PauliGadgetOK judges the weights); builds WITHOUT .seed() (Default, Circuit::random_*(), "
+                    "::new(); parameters read back from the builders' public fields) are judged by the contract only, the 40-qubit "
+                    "default hidden-shift instance by its shape only; DefaultAdmissible: a builder nobody configured holds admissible parameters",
                     tagger=tagger)
 
 
